@@ -1,9 +1,10 @@
-SPECIFICATION Spec
+SPECIFICATION SpecD
 CONSTANTS
   T = 3
-  Writers = {"w1", "w2"}
+  Writers = {"w1"}
+  EarlyStart = FALSE
   MaxLen = 2
-  MaxId = 3
+  MaxId = 2
   ChanSets = {{"I"}, {"I","D","V"}, {"D"}}
 INVARIANTS TypeOK SamplesInDomains DomainsDisjoint DataHasIndex NoUncommittedVisible
 PROPERTIES DeleteExact IndexGuard
